@@ -11,7 +11,8 @@ Open Scope N_scope.
 Record cop := mkCop {
   co_key : key;
   co_nocache : bool;
-  co_res : option N;                 (* what the scripted getter answers if called: id, None = error *)
+  co_res : fetched N;                (* what the scripted getter returns if called: FOk id, or an error
+                                        with the id of the data that come with it (None = nil data) *)
   co_ret : option N;                 (* observed: id of the data returned, None = error *)
   co_asked : bool;                   (* observed: the getter was called *)
   co_dump : list (key * N * bool)    (* observed: segment map afterwards (key, nreads, done) *)
@@ -37,10 +38,10 @@ Fixpoint cache_seq (c : cache N) (ops : list cop) : bool :=
   | [] => true
   | o :: r =>
       if co_nocache o then
-        optN_eqb (co_ret o) (co_res o) && co_asked o && same_dump (model_dump c) (co_dump o)
+        optN_eqb (co_ret o) (fetch_value (co_res o)) && co_asked o && same_dump (model_dump c) (co_dump o)
         && cache_seq c r
       else
-        match get (co_key o) (map (fun e => fst (fst e)) (co_dump o)) (co_res o) c with
+        match get_f (co_key o) (map (fun e => fst (fst e)) (co_dump o)) (co_res o) c with
         | None => false
         | Some (c1, ret, asked) =>
             optN_eqb ret (co_ret o) && Bool.eqb asked (co_asked o)
